@@ -33,6 +33,9 @@ pub fn run(pid: &str, tier: &str, seed: u64) {
     "C05" => crate::o_star::c05(tier, seed),
     "C10" => crate::o_ggm::c10(tier, seed),
     "C11" => crate::o_ggm::c11(tier, seed),
+    "C12" => crate::o_ppoprf::c12(tier, seed),
+    "C13" => crate::o_ppoprf::c13(tier, seed),
+    "C14" => crate::o_ppoprf::c14(tier, seed),
     "C16" => crate::o_star::c16(tier, seed),
     "C06" => crate::o_sharks::c06(tier, seed),
     "C07" => crate::o_sharks::c07(tier, seed),
